@@ -720,6 +720,368 @@ fn assemble(rng: &mut Rng, p: &Pool, truth: &mut Truth, report: &mut Report, kin
     }
 }
 
+
+// ------------------------------------------------------------------------------------------------
+// deterministic boundary family (identical for every seed; runs before the random stream)
+// ------------------------------------------------------------------------------------------------
+#[derive(Clone, Debug)]
+enum SP {
+    Good(usize),            // pool key signs the hash of its own intent
+    Other(usize, usize),    // pool key signs the hash of intent j (0 = root, 1.. = non-root subintents)
+    Random(usize),          // pool key signs an unrelated hash
+    Corrupt(usize, usize),  // good signature with bit 0 of byte i flipped
+    WrongDeclared(usize),   // ed25519 signature with another declared public key
+    Dup(usize),             // copy of entry i of the same list
+    RecidInvalid(usize),    // secp256k1 signature with the recovery id byte out of range
+}
+#[derive(Clone, Copy, Debug, PartialEq)]
+enum NP {
+    Good,
+    WrongHash,
+    WrongKey,
+    CurveMismatch,
+    Corrupt,
+    RecidOther,   // secp256k1: another valid recovery id (verification ignores its value)
+    RecidInvalid, // secp256k1: recovery id out of range
+}
+#[derive(Clone, Debug)]
+struct Plan {
+    class: &'static str,
+    kind: Kind,
+    base_babylon: bool,
+    per_intent: Option<usize>,
+    total: Option<usize>,
+    v1_dup: Option<bool>,
+    nis: bool,
+    nk: usize,
+    lists: Vec<Vec<SP>>, // root first; lists.len() - 1 = number of (flat) non-root subintents
+    notary: NP,
+    batch_delta: i32,
+    expect: &'static str,
+}
+fn plan(class: &'static str, kind: Kind, lists: Vec<Vec<SP>>, expect: &'static str) -> Plan {
+    Plan { class, kind, base_babylon: false, per_intent: None, total: None, v1_dup: None, nis: false, nk: 1, lists, notary: NP::Good, batch_delta: 0, expect }
+}
+fn goods(from: usize, n: usize) -> Vec<SP> {
+    (0..n).map(|i| SP::Good(from + i)).collect()
+}
+fn obs_tag(o: &Obs) -> String {
+    match o {
+        Obs::Accepted { root, total, .. } => format!("accepted:{}:{}", root.len(), total),
+        Obs::Rejected(Loc::NonRoot(i, _), _) => format!("{}{}", obs_key(o), i),
+        other => obs_key(other),
+    }
+}
+fn plan_config(pl: &Plan) -> TransactionValidationConfig {
+    let mut c = if pl.base_babylon { TransactionValidationConfig::babylon() } else { TransactionValidationConfig::latest() };
+    if let Some(x) = pl.per_intent {
+        c.max_signer_signatures_per_intent = x;
+    }
+    if let Some(x) = pl.total {
+        c.max_total_signature_validations = x;
+    }
+    if let Some(x) = pl.v1_dup {
+        c.v1_transactions_allow_notary_to_duplicate_signer = x;
+    }
+    c
+}
+fn plan_sigs(p: &Pool, truth: &mut Truth, list: &[SP], own: usize, all: &[Hash]) -> Vec<SigWk> {
+    let mut v: Vec<SigWk> = vec![];
+    for sp in list {
+        let s = match sp {
+            SP::Good(k) => {
+                let s = p.privs[*k].sign_with_public_key(&all[own]);
+                truth.intent.push((s, *k, all[own]));
+                s
+            }
+            SP::Other(k, j) => {
+                let s = p.privs[*k].sign_with_public_key(&all[*j]);
+                truth.intent.push((s, *k, all[*j]));
+                s
+            }
+            SP::Random(k) => {
+                let h = hash([*k as u8, 0x77, own as u8]);
+                let s = p.privs[*k].sign_with_public_key(&h);
+                truth.intent.push((s, *k, h));
+                s
+            }
+            SP::Corrupt(k, i) => {
+                let mut s = p.privs[*k].sign_with_public_key(&all[own]);
+                sigwk_bytes_mut(&mut s)[*i] ^= 1;
+                s
+            }
+            SP::WrongDeclared(k) => match p.privs[*k].sign_with_public_key(&all[own]) {
+                SigWk::Ed25519 { signature, .. } => {
+                    let other = match &p.pubs[(*k + 2) % POOL] {
+                        PublicKey::Ed25519(pk) => *pk,
+                        _ => unreachable!(),
+                    };
+                    SigWk::Ed25519 { public_key: other, signature }
+                }
+                _ => panic!("WrongDeclared needs an ed25519 (odd) pool key"),
+            },
+            SP::Dup(i) => v[*i],
+            SP::RecidInvalid(k) => {
+                let mut s = p.privs[*k].sign_with_public_key(&all[own]);
+                sigwk_bytes_mut(&mut s)[0] = 9;
+                s
+            }
+        };
+        v.push(s);
+    }
+    v
+}
+fn plan_keys(p: &Pool, list: &[SP]) -> Vec<PublicKey> {
+    let mut v: Vec<PublicKey> = vec![];
+    for sp in list {
+        let k = match sp {
+            SP::Good(k) => p.pubs[*k],
+            SP::Dup(i) => v[*i],
+            other => panic!("preview lists hold keys only: {:?}", other),
+        };
+        v.push(k);
+    }
+    v
+}
+fn plan_notary(p: &Pool, truth: &mut Truth, nk: usize, mode: NP, signed_hash: &Hash, intent_hash: &Hash) -> SignatureV1 {
+    let mut good = |k: usize, h: &Hash| {
+        let s = p.privs[k].sign_without_public_key(h);
+        truth.notary.push((s, k, *h));
+        s
+    };
+    match mode {
+        NP::Good => good(nk, signed_hash),
+        NP::WrongHash => good(nk, intent_hash),
+        NP::WrongKey => good((nk + 2) % POOL, signed_hash),
+        NP::CurveMismatch => good((nk + 1) % POOL, signed_hash),
+        NP::Corrupt => {
+            let mut s = p.privs[nk].sign_without_public_key(signed_hash);
+            match &mut s {
+                SignatureV1::Secp256k1(x) => x.0[7] ^= 1,
+                SignatureV1::Ed25519(x) => x.0[7] ^= 1,
+            }
+            s
+        }
+        NP::RecidOther | NP::RecidInvalid => {
+            let mut s = good(nk, signed_hash);
+            match &mut s {
+                SignatureV1::Secp256k1(x) => x.0[0] = if mode == NP::RecidOther { (x.0[0] + 1) % 4 } else { 5 },
+                _ => panic!("recovery id plans need a secp256k1 (even) notary key"),
+            }
+            s
+        }
+    }
+}
+fn assemble_plan(p: &Pool, truth: &mut Truth, pl: &Plan, idx: usize) -> Built {
+    let settings = PreparationSettings::latest();
+    let mut rng = Rng::new(0xC33_B0).fork(idx as u64); // content only; independent of --seed
+    let npk = p.pubs[pl.nk];
+    let nsub = pl.lists.len() - 1;
+    let shape = flat_shape(nsub);
+    let adjust = |mut by: Vec<IntentSignaturesV2>| {
+        if pl.batch_delta < 0 {
+            by.pop();
+        } else if pl.batch_delta > 0 {
+            by.push(IntentSignaturesV2 { signatures: vec![] });
+        }
+        by
+    };
+    match pl.kind {
+        Kind::V1 => {
+            let intent = build_v1_intent(&mut rng, npk, pl.nis);
+            let ih = *intent.prepare(&settings).unwrap().transaction_intent_hash().as_hash();
+            let sigs = plan_sigs(p, truth, &pl.lists[0], 0, &[ih]);
+            let signed = SignedIntentV1 { intent, intent_signatures: IntentSignaturesV1 { signatures: sigs.into_iter().map(IntentSignatureV1).collect() } };
+            let sh = *signed.prepare(&settings).unwrap().signed_transaction_intent_hash().as_hash();
+            let nsig = plan_notary(p, truth, pl.nk, pl.notary, &sh, &ih);
+            let tx = NotarizedTransactionV1 { signed_intent: signed, notary_signature: NotarySignatureV1(nsig) };
+            Built { kind: pl.kind, raw: tx.to_raw().unwrap().to_vec(), tag: format!("boundary:{};", pl.class) }
+        }
+        Kind::V2 | Kind::Preview => {
+            let intent = build_tx_intent(&mut rng, &shape, npk, pl.nis);
+            let prepared = intent.prepare(&settings).unwrap();
+            let ih = *prepared.transaction_intent_hash().as_hash();
+            let mut all = vec![ih];
+            all.extend(prepared.non_root_subintent_hashes().iter().map(|h| *h.as_hash()));
+            if pl.kind == Kind::Preview {
+                let root = plan_keys(p, &pl.lists[0]);
+                let mut non_root: Vec<Vec<PublicKey>> = (0..nsub).map(|i| plan_keys(p, &pl.lists[1 + i])).collect();
+                if pl.batch_delta < 0 {
+                    non_root.pop();
+                } else if pl.batch_delta > 0 {
+                    non_root.push(vec![]);
+                }
+                return Built { kind: pl.kind, raw: encode_preview(&intent, &root, &non_root), tag: format!("boundary:{};", pl.class) };
+            }
+            let root_list = plan_sigs(p, truth, &pl.lists[0], 0, &all);
+            let by: Vec<IntentSignaturesV2> = (0..nsub)
+                .map(|i| IntentSignaturesV2 { signatures: plan_sigs(p, truth, &pl.lists[1 + i], 1 + i, &all).into_iter().map(IntentSignatureV1).collect() })
+                .collect();
+            let signed = SignedTransactionIntentV2 {
+                transaction_intent: intent,
+                transaction_intent_signatures: IntentSignaturesV2 { signatures: root_list.into_iter().map(IntentSignatureV1).collect() },
+                non_root_subintent_signatures: NonRootSubintentSignaturesV2 { by_subintent: adjust(by) },
+            };
+            let sh = *signed.prepare(&settings).unwrap().signed_transaction_intent_hash().as_hash();
+            let nsig = plan_notary(p, truth, pl.nk, pl.notary, &sh, &ih);
+            let tx = NotarizedTransactionV2 { signed_transaction_intent: signed, notary_signature: NotarySignatureV2(nsig) };
+            Built { kind: pl.kind, raw: tx.to_raw().unwrap().to_vec(), tag: format!("boundary:{};", pl.class) }
+        }
+        Kind::Partial => {
+            let partial = build_partial(&mut rng, &shape).partial_transaction;
+            let prepared = partial.prepare(&settings).unwrap();
+            let rh = *prepared.root_subintent.subintent_hash().as_hash();
+            let mut all = vec![rh];
+            all.extend(prepared.non_root_subintent_hashes().map(|h| *h.as_hash()));
+            let root_list = plan_sigs(p, truth, &pl.lists[0], 0, &all);
+            let by: Vec<IntentSignaturesV2> = (0..nsub)
+                .map(|i| IntentSignaturesV2 { signatures: plan_sigs(p, truth, &pl.lists[1 + i], 1 + i, &all).into_iter().map(IntentSignatureV1).collect() })
+                .collect();
+            let tx = SignedPartialTransactionV2 {
+                partial_transaction: partial,
+                root_subintent_signatures: IntentSignaturesV2 { signatures: root_list.into_iter().map(IntentSignatureV1).collect() },
+                non_root_subintent_signatures: NonRootSubintentSignaturesV2 { by_subintent: adjust(by) },
+            };
+            Built { kind: pl.kind, raw: tx.to_raw().unwrap().to_vec(), tag: format!("boundary:{};", pl.class) }
+        }
+    }
+}
+
+/// pool keys: even = secp256k1, odd = ed25519; the default notary is key 1 (ed25519)
+fn boundary_family() -> Vec<Plan> {
+    use Kind::*;
+    use SP::*;
+    let mut v: Vec<Plan> = vec![];
+    let with = |mut p: Plan, f: &dyn Fn(&mut Plan)| {
+        f(&mut p);
+        p
+    };
+    // ---------------- V1 ----------------
+    v.push(plan("v1_two_signers", V1, vec![vec![Good(3), Good(4)]], "accepted:2:3"));
+    v.push(plan("v1_no_signers", V1, vec![vec![]], "accepted:0:1"));
+    v.push(with(plan("v1_no_signers_notary_signatory", V1, vec![vec![]], "accepted:1:1"), &|p| p.nis = true));
+    v.push(with(plan("v1_notary_signatory_appended", V1, vec![vec![Good(3), Good(4)]], "accepted:3:3"), &|p| p.nis = true));
+    v.push(with(plan("v1_notary_signatory_also_signs_first_allowed", V1, vec![vec![Good(1), Good(4)]], "accepted:2:3"), &|p| p.nis = true));
+    v.push(with(plan("v1_notary_signatory_also_signs_last_allowed", V1, vec![vec![Good(4), Good(1)]], "accepted:2:3"), &|p| p.nis = true));
+    v.push(with(plan("v1_babylon_notary_signatory_also_signs_allowed", V1, vec![vec![Good(4), Good(1)]], "accepted:2:3"), &|p| { p.nis = true; p.base_babylon = true; }));
+    v.push(with(plan("v1_flag_off_notary_signatory_also_signs", V1, vec![vec![Good(4), Good(1)]], "rejected_NotaryIsSignatorySoShouldNotAlsoBeASigner_root_tx"), &|p| { p.nis = true; p.v1_dup = Some(false); }));
+    v.push(with(plan("v1_flag_off_notary_signatory_only_signer", V1, vec![vec![Good(1)]], "rejected_NotaryIsSignatorySoShouldNotAlsoBeASigner_root_tx"), &|p| { p.nis = true; p.v1_dup = Some(false); }));
+    v.push(with(plan("v1_flag_off_non_signatory_notary_signs", V1, vec![vec![Good(4), Good(1)]], "accepted:2:3"), &|p| p.v1_dup = Some(false)));
+    v.push(with(plan("v1_flag_off_notary_signatory_not_signer", V1, vec![vec![Good(4), Good(3)]], "accepted:3:3"), &|p| { p.nis = true; p.v1_dup = Some(false); }));
+    v.push(with(plan("v1_secp_notary_signatory_also_signs_flag_off", V1, vec![vec![Good(0), Good(3)]], "rejected_NotaryIsSignatorySoShouldNotAlsoBeASigner_root_tx"), &|p| { p.nis = true; p.nk = 0; p.v1_dup = Some(false); }));
+    for (name, l) in [
+        ("first_ed_wrong_declared_key", vec![WrongDeclared(3), Good(4), Good(5)]),
+        ("middle_ed_wrong_declared_key", vec![Good(4), WrongDeclared(3), Good(5)]),
+        ("last_ed_wrong_declared_key", vec![Good(4), Good(5), WrongDeclared(3)]),
+        ("only_ed_over_other_hash", vec![Random(3)]),
+        ("last_ed_corrupt_signature_byte", vec![Good(4), Corrupt(3, 40)]),
+        ("first_secp_recovery_id_out_of_range", vec![RecidInvalid(4), Good(3)]),
+    ] {
+        v.push(plan(Box::leak(format!("v1_invalid_{}", name).into_boxed_str()), V1, vec![l], "rejected_InvalidIntentSignature_root_tx"));
+    }
+    v.push(plan("v1_secp_over_other_hash_recovers_another_key", V1, vec![vec![Random(4)]], "accepted:1:2"));
+    v.push(plan("v1_secp_other_recovery_id_recovers_another_key", V1, vec![vec![Corrupt(4, 0), Good(3)]], "accepted:2:3"));
+    v.push(plan("v1_duplicate_adjacent", V1, vec![vec![Good(3), Dup(0)]], "rejected_DuplicateSigner_root_tx"));
+    v.push(plan("v1_duplicate_first_last", V1, vec![vec![Good(4), Good(3), Good(5), Dup(0)]], "rejected_DuplicateSigner_root_tx"));
+    v.push(plan("v1_order_invalid_before_duplicate", V1, vec![vec![Good(3), WrongDeclared(5), Dup(0)]], "rejected_InvalidIntentSignature_root_tx"));
+    v.push(plan("v1_order_duplicate_before_invalid", V1, vec![vec![Good(3), Dup(0), WrongDeclared(5)]], "rejected_DuplicateSigner_root_tx"));
+    for (name, np, nk, e) in [
+        ("wrong_hash", NP::WrongHash, 1usize, "rejected_InvalidNotarySignature_root_tx"),
+        ("wrong_key", NP::WrongKey, 1, "rejected_InvalidNotarySignature_root_tx"),
+        ("ed_key_secp_signature", NP::CurveMismatch, 1, "rejected_InvalidNotarySignature_root_tx"),
+        ("secp_key_ed_signature", NP::CurveMismatch, 0, "rejected_InvalidNotarySignature_root_tx"),
+        ("corrupt_ed", NP::Corrupt, 1, "rejected_InvalidNotarySignature_root_tx"),
+        ("corrupt_secp", NP::Corrupt, 0, "rejected_InvalidNotarySignature_root_tx"),
+        ("secp_wrong_hash", NP::WrongHash, 0, "rejected_InvalidNotarySignature_root_tx"),
+        ("secp_good", NP::Good, 0, "accepted:1:2"),
+        ("secp_other_recovery_id_still_verifies", NP::RecidOther, 0, "accepted:1:2"),
+    ] {
+        v.push(with(plan(Box::leak(format!("v1_notary_{}", name).into_boxed_str()), V1, vec![vec![Good(3)]], e), &|p| { p.notary = np; p.nk = nk; }));
+    }
+    v.push(with(plan("v1_notary_secp_recovery_id_out_of_range", V1, vec![vec![Good(3)]], "rejected_InvalidNotarySignature_root_tx"), &|p| { p.notary = NP::RecidInvalid; p.nk = 0; }));
+    v.push(with(plan("v1_order_intent_signature_before_notary", V1, vec![vec![WrongDeclared(3)]], "rejected_InvalidIntentSignature_root_tx"), &|p| p.notary = NP::WrongHash));
+    v.push(with(plan("v1_order_notary_signature_before_notary_duplicate", V1, vec![vec![Good(1)]], "rejected_InvalidNotarySignature_root_tx"), &|p| { p.notary = NP::WrongHash; p.nis = true; p.v1_dup = Some(false); }));
+    for (name, bab) in [("latest", false), ("babylon", true)] {
+        v.push(with(plan(Box::leak(format!("v1_{}_signers_15", name).into_boxed_str()), V1, vec![goods(2, 15)], "accepted:15:16"), &|p| p.base_babylon = bab));
+        v.push(with(plan(Box::leak(format!("v1_{}_signers_16", name).into_boxed_str()), V1, vec![goods(2, 16)], "accepted:16:17"), &|p| p.base_babylon = bab));
+        v.push(with(plan(Box::leak(format!("v1_{}_signers_17", name).into_boxed_str()), V1, vec![goods(2, 17)], "rejected_TooManySignatures_root_tx"), &|p| p.base_babylon = bab));
+    }
+    v.push(plan("v1_order_count_before_invalid", V1, vec![{ let mut l = goods(2, 16); l.push(WrongDeclared(21)); l }], "rejected_TooManySignatures_root_tx"));
+    v.push(with(plan("v1_total_at_limit", V1, vec![goods(2, 2)], "accepted:2:3"), &|p| p.total = Some(3)));
+    v.push(with(plan("v1_total_over_limit", V1, vec![goods(2, 3)], "rejected_TooManySignatures_across"), &|p| p.total = Some(3)));
+    v.push(with(plan("v1_order_total_before_invalid", V1, vec![vec![Good(2), Good(4), WrongDeclared(3)]], "rejected_TooManySignatures_across"), &|p| p.total = Some(3)));
+    v.push(with(plan("v1_per_intent_limit_zero_no_signers", V1, vec![vec![]], "accepted:0:1"), &|p| p.per_intent = Some(0)));
+    v.push(with(plan("v1_per_intent_limit_zero_one_signer", V1, vec![vec![Good(3)]], "rejected_TooManySignatures_root_tx"), &|p| p.per_intent = Some(0)));
+    v.push(with(plan("v1_total_limit_zero", V1, vec![vec![]], "rejected_TooManySignatures_across"), &|p| p.total = Some(0)));
+    // ---------------- V2 notarized ----------------
+    v.push(plan("v2_clean_two_subintents", V2, vec![vec![Good(3), Good(4)], vec![Good(5)], vec![Good(6)]], "accepted:2:5"));
+    v.push(plan("v2_no_signers_anywhere", V2, vec![vec![], vec![]], "accepted:0:1"));
+    v.push(with(plan("v2_notary_signatory_appended", V2, vec![vec![Good(3)], vec![Good(5)]], "accepted:2:3"), &|p| p.nis = true));
+    v.push(with(plan("v2_notary_signatory_also_signs_first", V2, vec![vec![Good(1), Good(3)], vec![]], "rejected_NotaryIsSignatorySoShouldNotAlsoBeASigner_root_tx"), &|p| p.nis = true));
+    v.push(with(plan("v2_notary_signatory_also_signs_last", V2, vec![vec![Good(3), Good(1)], vec![]], "rejected_NotaryIsSignatorySoShouldNotAlsoBeASigner_root_tx"), &|p| p.nis = true));
+    v.push(with(plan("v2_notary_signatory_also_signs_config_flag_irrelevant", V2, vec![vec![Good(1)]], "rejected_NotaryIsSignatorySoShouldNotAlsoBeASigner_root_tx"), &|p| { p.nis = true; p.v1_dup = Some(true); }));
+    v.push(plan("v2_non_signatory_notary_signs", V2, vec![vec![Good(3), Good(1)], vec![]], "accepted:2:3"));
+    v.push(with(plan("v2_notary_signatory_signs_a_subintent", V2, vec![vec![Good(3)], vec![Good(1)]], "accepted:2:3"), &|p| p.nis = true));
+    v.push(plan("v2_same_key_in_root_and_subintent", V2, vec![vec![Good(3)], vec![Good(3)], vec![Good(3)]], "accepted:1:4"));
+    v.push(plan("v2_invalid_in_first_subintent", V2, vec![vec![Good(3)], vec![WrongDeclared(5)], vec![Good(6)]], "rejected_InvalidIntentSignature_non_root0"));
+    v.push(plan("v2_invalid_in_last_subintent", V2, vec![vec![Good(3)], vec![Good(6)], vec![Good(4), WrongDeclared(5)]], "rejected_InvalidIntentSignature_non_root1"));
+    v.push(plan("v2_invalid_in_both_subintents", V2, vec![vec![Good(3)], vec![WrongDeclared(7)], vec![WrongDeclared(5)]], "rejected_InvalidIntentSignature_non_root0"));
+    v.push(plan("v2_order_root_before_subintent", V2, vec![vec![WrongDeclared(3)], vec![WrongDeclared(5)]], "rejected_InvalidIntentSignature_root_tx"));
+    v.push(plan("v2_duplicate_in_subintent", V2, vec![vec![Good(3)], vec![Good(5), Good(6), Dup(0)]], "rejected_DuplicateSigner_non_root0"));
+    v.push(plan("v2_duplicate_in_root", V2, vec![vec![Good(3), Dup(0)], vec![]], "rejected_DuplicateSigner_root_tx"));
+    v.push(plan("v2_ed_signature_over_subintent_hash_in_root", V2, vec![vec![Other(3, 1)], vec![Good(5)]], "rejected_InvalidIntentSignature_root_tx"));
+    v.push(plan("v2_ed_signature_over_root_hash_in_subintent", V2, vec![vec![Good(3)], vec![Other(5, 0)]], "rejected_InvalidIntentSignature_non_root0"));
+    v.push(plan("v2_ed_signature_over_sibling_hash", V2, vec![vec![Good(3)], vec![Good(5)], vec![Other(7, 1)]], "rejected_InvalidIntentSignature_non_root1"));
+    v.push(plan("v2_secp_signature_over_sibling_hash_recovers_another_key", V2, vec![vec![Good(3)], vec![Good(5)], vec![Other(6, 1)]], "accepted:1:4"));
+    for (name, np, nk) in [("wrong_hash", NP::WrongHash, 1usize), ("wrong_key", NP::WrongKey, 0), ("curve_mismatch", NP::CurveMismatch, 1), ("corrupt", NP::Corrupt, 0)] {
+        v.push(with(plan(Box::leak(format!("v2_notary_{}", name).into_boxed_str()), V2, vec![vec![Good(3)], vec![Good(5)]], "rejected_InvalidNotarySignature_root_tx"), &|p| { p.notary = np; p.nk = nk; }));
+    }
+    v.push(with(plan("v2_order_notary_before_subintent_signature", V2, vec![vec![Good(3)], vec![WrongDeclared(5)]], "rejected_InvalidNotarySignature_root_tx"), &|p| p.notary = NP::WrongHash));
+    v.push(with(plan("v2_order_notary_signature_before_notary_duplicate", V2, vec![vec![Good(1)]], "rejected_InvalidNotarySignature_root_tx"), &|p| { p.notary = NP::WrongKey; p.nis = true; }));
+    v.push(with(plan("v2_batches_one_missing", V2, vec![vec![Good(3)], vec![Good(5)], vec![Good(6)]], "rejected_IncorrectNumberOfSubintentSignatureBatches_across"), &|p| p.batch_delta = -1));
+    v.push(with(plan("v2_batches_one_extra", V2, vec![vec![Good(3)], vec![Good(5)]], "rejected_IncorrectNumberOfSubintentSignatureBatches_across"), &|p| p.batch_delta = 1));
+    v.push(with(plan("v2_batches_extra_without_subintents", V2, vec![vec![Good(3)]], "rejected_IncorrectNumberOfSubintentSignatureBatches_across"), &|p| p.batch_delta = 1));
+    v.push(plan("v2_root_signers_16", V2, vec![goods(2, 16), vec![]], "accepted:16:17"));
+    v.push(plan("v2_root_signers_17", V2, vec![goods(2, 17), vec![]], "rejected_TooManySignatures_root_tx"));
+    v.push(plan("v2_first_subintent_signers_16", V2, vec![vec![], goods(2, 16), vec![]], "accepted:0:17"));
+    v.push(plan("v2_first_subintent_signers_17", V2, vec![vec![], goods(2, 17), vec![]], "rejected_TooManySignatures_non_root0"));
+    v.push(plan("v2_last_subintent_signers_17", V2, vec![vec![], vec![], goods(2, 17)], "rejected_TooManySignatures_non_root1"));
+    v.push(with(plan("v2_order_root_count_before_batches", V2, vec![goods(2, 17), vec![]], "rejected_TooManySignatures_root_tx"), &|p| p.batch_delta = -1));
+    v.push(with(plan("v2_order_batches_before_subintent_count", V2, vec![vec![], goods(2, 17)], "rejected_IncorrectNumberOfSubintentSignatureBatches_across"), &|p| p.batch_delta = 1));
+    v.push(plan("v2_total_63", V2, vec![goods(2, 16), goods(2, 16), goods(2, 16), goods(2, 14)], "accepted:16:63"));
+    v.push(plan("v2_total_64", V2, vec![goods(2, 16), goods(2, 16), goods(2, 16), goods(2, 15)], "accepted:16:64"));
+    v.push(plan("v2_total_65", V2, vec![goods(2, 16), goods(2, 16), goods(2, 16), goods(2, 16)], "rejected_TooManySignatures_across"));
+    v.push(plan("v2_order_total_before_invalid", V2, vec![goods(2, 16), goods(2, 16), goods(2, 16), { let mut l = goods(2, 15); l.push(WrongDeclared(21)); l }], "rejected_TooManySignatures_across"));
+    v.push(with(plan("v2_total_small_at", V2, vec![vec![Good(3)], vec![Good(5)]], "accepted:1:3"), &|p| p.total = Some(3)));
+    v.push(with(plan("v2_total_small_over", V2, vec![vec![Good(3)], vec![Good(5), Good(6)]], "rejected_TooManySignatures_across"), &|p| p.total = Some(3)));
+    // ---------------- V2 signed partial ----------------
+    v.push(plan("partial_clean", Partial, vec![vec![Good(3), Good(4)], vec![Good(5)]], "accepted:2:3"));
+    v.push(plan("partial_no_signers", Partial, vec![vec![]], "accepted:0:0"));
+    v.push(plan("partial_invalid_root", Partial, vec![vec![Good(4), WrongDeclared(3)], vec![]], "rejected_InvalidIntentSignature_root_subintent"));
+    v.push(plan("partial_duplicate_root", Partial, vec![vec![Good(4), Dup(0)]], "rejected_DuplicateSigner_root_subintent"));
+    v.push(plan("partial_invalid_subintent", Partial, vec![vec![Good(4)], vec![Good(6)], vec![Corrupt(5, 3)]], "rejected_InvalidIntentSignature_non_root1"));
+    v.push(plan("partial_root_signers_16", Partial, vec![goods(2, 16)], "accepted:16:16"));
+    v.push(plan("partial_root_signers_17", Partial, vec![goods(2, 17)], "rejected_TooManySignatures_root_subintent"));
+    v.push(plan("partial_total_64_no_notary", Partial, vec![goods(2, 16), goods(2, 16), goods(2, 16), goods(2, 16)], "accepted:16:64"));
+    v.push(plan("partial_total_65", Partial, vec![goods(2, 16), goods(2, 16), goods(2, 16), goods(2, 16), goods(2, 1)], "rejected_TooManySignatures_across"));
+    v.push(with(plan("partial_batches_one_missing", Partial, vec![vec![Good(3)], vec![Good(5)]], "rejected_IncorrectNumberOfSubintentSignatureBatches_across"), &|p| p.batch_delta = -1));
+    v.push(with(plan("partial_total_small_at_no_notary", Partial, vec![vec![Good(3)], vec![Good(5), Good(6)]], "accepted:1:3"), &|p| p.total = Some(3)));
+    // ---------------- V2 preview (public keys only) ----------------
+    v.push(plan("preview_clean", Preview, vec![vec![Good(3), Good(4)], vec![Good(5)]], "accepted:2:4"));
+    v.push(plan("preview_duplicate_root_key", Preview, vec![vec![Good(3), Good(4), Dup(0)], vec![]], "rejected_DuplicateSigner_root_tx"));
+    v.push(plan("preview_duplicate_subintent_key", Preview, vec![vec![Good(3)], vec![], vec![Good(5), Dup(0)]], "rejected_DuplicateSigner_non_root1"));
+    v.push(with(plan("preview_notary_signatory_appended", Preview, vec![vec![Good(3)]], "accepted:2:2"), &|p| p.nis = true));
+    v.push(with(plan("preview_notary_signatory_also_listed", Preview, vec![vec![Good(3), Good(1)]], "rejected_NotaryIsSignatorySoShouldNotAlsoBeASigner_root_tx"), &|p| p.nis = true));
+    v.push(plan("preview_non_signatory_notary_listed", Preview, vec![vec![Good(3), Good(1)]], "accepted:2:3"));
+    v.push(plan("preview_root_keys_16", Preview, vec![goods(2, 16)], "accepted:16:17"));
+    v.push(plan("preview_root_keys_17", Preview, vec![goods(2, 17)], "rejected_TooManySignatures_root_tx"));
+    v.push(plan("preview_subintent_keys_17", Preview, vec![vec![], goods(2, 17)], "rejected_TooManySignatures_non_root0"));
+    v.push(plan("preview_total_64", Preview, vec![goods(2, 16), goods(2, 16), goods(2, 16), goods(2, 15)], "accepted:16:64"));
+    v.push(plan("preview_total_65", Preview, vec![goods(2, 16), goods(2, 16), goods(2, 16), goods(2, 16)], "rejected_TooManySignatures_across"));
+    v.push(with(plan("preview_batches_one_extra", Preview, vec![vec![Good(3)], vec![Good(5)]], "rejected_IncorrectNumberOfSubintentSignatureBatches_across"), &|p| p.batch_delta = 1));
+    v
+}
+
 // ------------------------------------------------------------------------------------------------
 // index tables + Coq printing
 // ------------------------------------------------------------------------------------------------
@@ -1117,12 +1479,19 @@ fn main() {
         }),
     );
 
+    let family = boundary_family();
+    for pl in family.iter() {
+        report.floor(&format!("b_{}", pl.class), 1);
+    }
     for i in 0..args.cases {
         let mut rng = root.fork(i as u64);
         let mut truth = Truth::default();
-        let stream = rng.below(100);
+        let stream = if i < family.len() { 1000 } else { rng.below(100) };
         // ---- choose kind, shape, counts, config
-        let (kind, shape, counts, cfg, dirty, bytemut): (Kind, Shape, Vec<usize>, TransactionValidationConfig, bool, bool) = if stream < 84 {
+        let (kind, shape, counts, cfg, dirty, bytemut): (Kind, Shape, Vec<usize>, TransactionValidationConfig, bool, bool) = if stream == 1000 {
+            let pl = &family[i];
+            (pl.kind, flat_shape(pl.lists.len() - 1), vec![], plan_config(pl), false, false)
+        } else if stream < 84 {
             let kind = match rng.below(100) {
                 0..=34 => Kind::V1,
                 35..=69 => Kind::V2,
@@ -1179,7 +1548,12 @@ fn main() {
         };
         report.count(&format!("kind_{:?}", kind));
         let validator = TransactionValidator::new_with_static_config(cfg, net());
-        let built = assemble(&mut rng, &p, &mut truth, &mut report, kind, &shape, &counts, dirty);
+        let built = if i < family.len() {
+            report.count(&format!("b_{}", family[i].class));
+            assemble_plan(&p, &mut truth, &family[i], i)
+        } else {
+            assemble(&mut rng, &p, &mut truth, &mut report, kind, &shape, &counts, dirty)
+        };
 
         // ---- run
         let (mut x, mut obs) = run_kind(kind, &built.raw, &validator);
@@ -1218,6 +1592,9 @@ fn main() {
         }
 
         report.count(&obs_key(&obs));
+        if i < family.len() && obs_tag(&obs) != family[i].expect {
+            extra_fail = Some(format!("boundary case {}: expected [{}] got [{}]", family[i].class, family[i].expect, obs_tag(&obs)));
+        }
         match &obs {
             Obs::Accepted { .. } | Obs::Rejected(..) => report.count("reached_signature_validator"),
             _ => report.count("not_reached_signature_validator"),
